@@ -141,7 +141,7 @@ func (e *VerifC15Env) Table() []VerifC15Sess {
 	e.S.lock.RLock()
 	r := make([]VerifC15Sess, 0, len(e.S.sessions))
 	for k, v := range e.S.sessions {
-		r = append(r, VerifC15Sess{Key: k, ID: v.ID, Host: v.host.String(), LastSet: !v.Last.IsZero(), Pub: v.keys.Public, Queued: len(v.send), Ptr: v})
+		r = append(r, VerifC15Sess{Key: k, ID: v.ID, Host: v.host.String(), LastSet: !v.Last.IsZero(), Pub: v.keys.Public, Queued: len(v.send) + verifC15B2I(v.peek != nil), Ptr: v})
 	}
 	e.S.lock.RUnlock()
 	sort.Slice(r, func(i, j int) bool { return r[i].Key < r[j].Key })
@@ -312,6 +312,9 @@ func (v *VerifC15Proxy) Clients() []VerifC15Client {
 	var r []VerifC15Client
 	for k, c := range v.P.clients {
 		x := VerifC15Client{Key: k, ID: c.ID, Seen: c.state.Seen()}
+		if q := c.peek; q != nil { // the carried-over packet is the head of the queue
+			x.Queued = append(x.Queued, VerifC15Leaf{Dev: q.Device, ID: q.ID, Job: q.Job})
+		}
 		n := len(c.send)
 		for i := 0; i < n; i++ {
 			q := <-c.send
@@ -359,4 +362,11 @@ func (v *VerifC15Proxy) ParentEvents() []VerifC15Leaf {
 		}
 	}
 	return r
+}
+
+func verifC15B2I(b bool) int {
+	if b {
+		return 1
+	}
+	return 0
 }
